@@ -54,7 +54,7 @@ def main(tier: str) -> int:
     if not cxxlab.tools_available():
         raise common.Inconclusive('g++ / clang++-14 not available')
     run = common.Run(PROP, tier)
-    n = 9 if tier == 'quick' else 150
+    n = 9 if tier == 'quick' else 400
     run.require('mts_provides_in', 'mts_requires_out', 'sts_events', 'identity_checks',
                 'gate_tests', 'programs', 'static_asserts_on_accessor_types')
     scratch = run.scratch()
